@@ -241,7 +241,7 @@ func c11r4(r *R) {
 			continue
 		}
 		for _, c := range calls(fn, nameIs("builtin close")) {
-			if !strings.HasSuffix(describe(c.Common().Args[0]), ".closeCh") {
+			if !strings.HasSuffix(describe(refArgs(c.Common())[0]), ".closeCh") {
 				continue
 			}
 			n++
@@ -254,7 +254,7 @@ func c11r4(r *R) {
 						if !ok || calleeName(d.Common()) != "(*sync.Once).Do" {
 							continue
 						}
-						if strings.HasSuffix(describe(d.Common().Args[0]), ".closeOnce") && isClosureOf(describe(d.Common().Args[1]), lit) {
+						if strings.HasSuffix(describe(refArgs(d.Common())[0]), ".closeOnce") && isClosureOf(describe(refArgs(d.Common())[1]), lit) {
 							okOnce = true
 						}
 					}
@@ -356,7 +356,7 @@ func c11r5(r *R) {
 	sc := r.fn(".", "shutdownContext")
 	found := false
 	for _, c := range calls(sc, nameIs("context.WithTimeout")) {
-		d := describe(c.Common().Args[1])
+		d := describe(refArgs(c.Common())[1])
 		found = (d == "$0.ShutdownTimeout" || d == "local:cfg.ShutdownTimeout") && guardedBy(c.Block(), eq("("+d+" > 0)"))
 	}
 	r.check(found, "shutdownContext#timeout", sc.Pos(), "drain bounded by ShutdownTimeout when set", "graceful drain is not bounded by the configured timeout")
